@@ -4,6 +4,7 @@ import (
 	"encoding/json"
 	"errors"
 	"fmt"
+	"io"
 	"strings"
 	"sync"
 	"time"
@@ -66,7 +67,8 @@ func errOrigin(err error) string {
 	if errors.As(err, &ae) {
 		return "alert"
 	}
-	if strings.Contains(s, "EOF") || strings.Contains(s, "closed pipe") || strings.Contains(s, "i/o timeout") {
+	var te hlib.TimeoutErr
+	if errors.Is(err, io.EOF) || errors.Is(err, io.ErrClosedPipe) || errors.As(err, &te) {
 		return "transport"
 	}
 	return "local"
